@@ -12,6 +12,7 @@ mod c18;
 mod c19;
 mod c20;
 mod hooks;
+mod c07;
 mod c08;
 mod c09;
 mod c10;
@@ -32,6 +33,8 @@ struct Ctx {
     c19: Option<c19::C19Ctx>,
     c13: Option<c13::HCtx>,
     c12: Option<c12::C12Ctx>,
+    c07: Option<c07::C07Ctx>,
+    c07h: Option<c07::HCtx>,
 }
 
 fn exec_line(ctx: &mut Ctx, line: &str) -> String {
@@ -90,6 +93,18 @@ fn exec_line(ctx: &mut Ctx, line: &str) -> String {
         "c10" => c10::exec(line),
         "c11" => c11::exec(line),
         "c14" => c14::exec(line),
+        "c07" => {
+            let (v, m) = parse_line(line);
+            if second == "cfg" {
+                ctx.c07 = None;
+                match util::guarded_res(|| c07::open_cfg(&m)) { Ok(c) => { ctx.c07 = Some(c); "ok".into() } Err(e) => { if std::env::var("VERIF_ERR_MSG").is_ok() { eprintln!("ERR: {}", e); } "err-open".into() } }
+            } else if second == "hcfg" { ctx.c07h = None; ctx.c07h = Some(c07::open_hcfg()); "ok".into() }
+            else if second == "hop" { let verb = v.get(2).cloned().unwrap_or_default(); match ctx.c07h.as_ref() { Some(c) => c07::exec_hop(c, &verb, &m), None => "skip".into() } }
+            else {
+                let verb = v.get(2).cloned().unwrap_or_default();
+                match ctx.c07.as_mut() { Some(c) => c07::exec(c, &verb, &m), None => "skip".into() }
+            }
+        }
         "c12" => {
             let (v, m) = parse_line(line);
             if second == "cfg" {
@@ -141,6 +156,7 @@ fn main() {
                 "c14" => c14::generate(&a.tier, a.seed),
                 "c13" => c13::generate(&a.tier, a.seed),
                 "c12" => c12::generate(&a.tier, a.seed),
+                "c07" => c07::generate(&a.tier, a.seed),
                 _ => { eprintln!("unknown property {}", prop); std::process::exit(2) }
             }
         }
